@@ -245,6 +245,9 @@ def run(ctx):
         (d / 'mb.json').write_text(_json.dumps({'tasks': top, 'uses': [f'{d}/p2.json as a', f'{d}/p1.json as b']}))
         ca = Config(data, str(d / 'ma.json')).chain(); cb = Config(data, str(d / 'mb.json')).chain()
         pairs.append(({'a::pa': x, 'b::pa': y}, {'a::pa': y, 'b::pa': x}, 'swap')); chains.extend([ca, cb])
+    # ---- parameter objects: a difference at any depth of an object's arguments moves the location (implementation + oracle;
+    #      the text of an object is AutoParameterObject.repr, model TCV.AutoObj, compared in C02)
+    object_pairs(ctx, root)
     keys, outs = model_keys(ctx, chains)
     for pi, (A, B, how) in enumerate(pairs):
         ca, cb = chains[2 * pi], chains[2 * pi + 1]
@@ -287,6 +290,72 @@ def run(ctx):
         ctx.fail('K1 witness', {'witness': 'K1'}, known='K1')
     else:
         ctx.notes['K1'] = 'witness no longer collides: finding K1 appears repaired'
+    b.cleanup_module()
+
+
+OBJ_SRC = '''
+from taskchain.parameter import AutoParameterObject as _APO
+
+
+class ArgObj(_APO):
+    def __init__(self, a, b=None):
+        self.a = a
+        self._b = b
+'''
+
+
+def object_pairs(ctx, root):
+    from taskchain import Config
+    spec = {'classes': {'K0': {'name': 'o', 'group': '', 'params': [{'name': 'obj'}, {'name': 'pz', 'default': None}], 'inputs': [], 'kind': 'json', 'run_args': []},
+                        'K1': {'name': 'oc', 'group': '', 'params': [], 'inputs': [{'by': 'class', 'ref': 'K0'}], 'kind': 'json', 'run_args': []}},
+            'files': {}, 'main': None}
+    modname = gen.fresh_modname()
+    b = pl.materialize(spec, root / 'objs', modname=modname)
+    f = (root / 'objs').joinpath(*modname.split('.')).with_suffix('.py')
+    f.write_text(f.read_text() + OBJ_SRC)
+    mod = b.module()
+    tasks = [getattr(mod, pl.pyname('K0')), getattr(mod, pl.pyname('K1'))]
+
+    def paths(kwargs, extra=None):
+        d = {'tasks': tasks, 'obj': {'class': f'{modname}.ArgObj', 'kwargs': copy.deepcopy(kwargs)}}
+        d.update(extra or {})
+        ch = Config(root / 'objd', name='c', data=d).chain()
+        return [ch.tasks['o'].data_path, ch.tasks['oc'].data_path], ch.tasks['o'].params.repr
+    for i in range(ctx.n(80, 1200)):
+        rng = ctx.rng('objpair', i)
+        r = rng.random()
+        if r < 0.25:
+            # adversarial: the text of one object spelt into a string argument / a neighbouring parameter of the other
+            a, b_ = gen.gen_str(rng, gen.SAFE, 4) or 'a', gen.gen_str(rng, gen.SAFE, 4) or 'b'
+            A, B = rng.choice([
+                ({'a': a, 'b': b_}, {'a': a + "', b='" + b_}), ({'a': [a, b_]}, {'a': [a + "', '" + b_]}),
+                ({'a': a}, {'a': a + "')###pz='x"}), ({'a': {a: 1}}, {'a': "{'" + a + "': 1}"}), ({'a': a, 'b': None}, {'a': a + "', b=None"}),
+                ({'a': 1}, {'a': '1'}), ({'a': [1, 2]}, {'a': '[1, 2]'})])
+            ea = eb = None
+            if "pz=" in str(B):
+                ea = {'pz': 'x'}
+            how = 'object-splice'
+        else:
+            v = gen.gen_value(rng, 0, 4, None if rng.random() < 0.4 else gen.SAFE, gen.SAFE)
+            w = mutate(rng, copy.deepcopy(v))
+            which = rng.choice(['a', 'b'])
+            other = gen.gen_value(rng, 1, 2, gen.SAFE, gen.SAFE)
+            A = {which: v, ('b' if which == 'a' else 'a'): other}
+            B = {which: w, ('b' if which == 'a' else 'a'): other}
+            ea = eb = None
+            how = 'object-mutation'
+        if gen.canon_json(A) == gen.canon_json(B) and ea == eb:
+            continue
+        try:
+            pa, ra = paths(A, ea); pb, rb = paths(B, eb)
+        except (TypeError, ValueError, AssertionError):
+            ctx.count('outside-domain'); continue
+        case = {'A': A, 'B': B, 'how': how, 'extra_A': ea}
+        ctx.case(case, nontrivial=True); ctx.count(f'pair:{how}')
+        same = [str(x) for x, y in zip(pa, pb) if x == y]
+        if same:
+            ctx.fail('two different computations share a storage location (they differ inside the arguments of a parameter object)', case,
+                     {'paths': same, 'repr_A': ra, 'repr_B': rb})
     b.cleanup_module()
 
 
